@@ -483,6 +483,15 @@ func (e *Env) ident(name string) Val {
 		}
 		e.fail("$seen used without a map range loop (or before the range starts)")
 	}
+	if name == "$key" && e.act != nil {
+		// the key most recently delivered by the (only) map iterator of this function
+		for _, it := range e.act.iters {
+			if !it.isStr && it.lastKey.T != "" {
+				return it.lastKey
+			}
+		}
+		e.fail("$key used before the map iterator delivered a key")
+	}
 	if name == "$iter" && e.act != nil {
 		if v, ok := e.act.lookupLocal("rangeint.iter", e.at, e.atIdx, e.phiOv); ok {
 			return v
@@ -604,7 +613,11 @@ func (e *Env) sel(x ESel) Val {
 // selectField reads field `name` of b (pointer-to-struct: heap; struct value: selector).
 func (g *Gen) selectField(st State, b Val, name string, fail func(string, ...interface{})) Val {
 	if b.G == nil {
-		fail("selector .%s on value without Go type (sort %s)", name, b.S)
+		if ss := g.w.structSorts[b.S]; ss != nil && ss.GoType != nil {
+			b.G = ss.GoType
+		} else {
+			fail("selector .%s on value without Go type (sort %s)", name, b.S)
+		}
 	}
 	t := b.G
 	if p, ok := t.Underlying().(*types.Pointer); ok {
